@@ -138,3 +138,25 @@ def sweep(specs, workers=16):
 def replay_case(spec):
     r = one_case(spec)
     return r
+
+
+def with_big_stack(fn, *args):
+    """Run fn in a thread with a large stack and recursion limit.  The compiler's recursion depth on long programs is a
+    known finding of C20; checks of other properties must not be masked by it."""
+    import sys
+    import threading
+    res = {}
+
+    def work():
+        sys.setrecursionlimit(200000)
+        try:
+            res["out"] = fn(*args)
+        except BaseException as e:  # pragma: no cover
+            res["err"] = e
+    threading.stack_size(768 * 1024 * 1024)
+    t = threading.Thread(target=work)
+    t.start()
+    t.join()
+    if "err" in res:
+        raise res["err"]
+    return res["out"]
